@@ -21,10 +21,14 @@ class ModelDiverges(Exception):
 
 
 class CoroRef:
-    OUTS = ("marker", "acc", "q", "r")
+    DEFAULTS = {"marker": 0, "acc": 0, "q": 0, "r": 0, "nd": None, "nr": 3, "orr": 0}
+    NORESET = {"nr"}
 
     def __init__(self, prog):
         self.prog = prog
+        rst = prog.get("reset") or {}
+        self.OUTS = ("marker", "acc", "q", "r") + (("nd", "nr") if rst.get("extra_ports") else ()) + (("orr",) if rst.get("on_reset") else ())
+        self.on_reset = bool(rst.get("on_reset"))
         self.subs = {s["name"]: s["body"] for s in prog["subs"]}
         self.var_init = dict(prog["vars"])
         self.var_init["accv"] = 0
@@ -32,7 +36,7 @@ class CoroRef:
 
     def power_up(self):
         self.vars = dict(self.var_init)
-        self.sig = {n: 0 for n in self.OUTS}
+        self.sig = {n: self.DEFAULTS[n] for n in self.OUTS}
         self.pend = {}
         self.inp = {}
         self.gen = self._main()
@@ -44,7 +48,12 @@ class CoroRef:
     def reset(self):
         """reset active at a clock: everything driven with a default takes it; coroutine restarts"""
         self.vars = dict(self.var_init)
-        self.sig = {n: 0 for n in self.OUTS}
+        for n in self.OUTS:
+            # objects without a default or marked noreset keep their value
+            if self.DEFAULTS[n] is not None and n not in self.NORESET:
+                self.sig[n] = self.DEFAULTS[n]
+        if self.on_reset:
+            self.sig["orr"] = 9
         self.pend = {}
         self.gen = self._main()
         self.fresh = True
